@@ -420,6 +420,7 @@ static inline void yieldCommon(bool sync) {
   }
   if (pre || t.yields >= t.next_event || (!g.tail && g.steps >= g.cfg.step_budget)) slowYield(pre);
 }
+uint64_t switchCount() { return g.switches; }
 void yieldSync() { yieldCommon(true); }
 void yieldMem() { yieldCommon(false); }
 
